@@ -309,10 +309,21 @@ def spec_special(I, st, name, node):
                 # quantification over objects ranges over allocated objects of that class
                 side.append(z3.And(c != NULL, st.alloc[c] if not st.in_old else st.alloc0[c], st.cls_is(c, strip_opt(ty)[1])))
         st.frames.append(fr)
+        st.spec_side.append([])
         try:
             body = I.truthy(st, I.eval(st, lam.body))
         finally:
             st.frames.pop()
+            facts = st.spec_side.pop()
+        # typing facts about values read in the body are heap invariants: universally closed over the bound variables
+        from .solve import mentions
+        for f in facts:
+            if mentions(f, bound):
+                f = z3.ForAll(bound, f)
+            if st.spec_side:
+                st.spec_side[-1].append(f)
+            else:
+                st.assume(f)
         if name == "forall":
             if side:
                 body = z3.Implies(z3.And(*side), body)
@@ -663,6 +674,7 @@ def apply_contract(I, st, c, fi, argmap, node):
     k = st.choose(1 + len(exc_keys), "outcome of %s" % short)
     saved = (st.old_heap, st.old_alloc)
     st.old_heap, st.old_alloc = pre_heap, pre_alloc
+    st.spec_assume_alloc = False      # assumed postconditions may introduce objects the callee allocated
     try:
         if k == 0:
             rt = return_type(I, st, fi, c, argmap.get("self"))
@@ -691,6 +703,7 @@ def apply_contract(I, st, c, fi, argmap, node):
         raise RaiseExc(ExcVal(key.rstrip("!"), exact), where=getattr(node, "lineno", None))
     finally:
         st.old_heap, st.old_alloc = saved
+        st.spec_assume_alloc = True
 
 
 # =======================================================================================
